@@ -1,5 +1,6 @@
 use std::collections::HashMap;
 
+use crate::feature::{ AtomKind, Configuration };
 use crate::graph::{ Atom, JoinPool };
 use super::{ Follower, Error };
 
@@ -105,8 +106,10 @@ fn walk_root<F: Follower>(
 
                 for (out_index, out) in child.bonds.into_iter().enumerate().rev() {
                     if out.tid == sid {
-                        if out_index % 2 == 0 {
-                            child.kind.invert_configuration()
+                        // moving the entry bond to the front passes over
+                        // out_index bonds and the virtual hydrogen, if any
+                        if (out_index + has_hydrogen(&child.kind)) % 2 == 1 {
+                            flip_configuration(&mut child.kind)
                         }
 
                         if back.is_none() {
@@ -143,6 +146,29 @@ fn walk_root<F: Follower>(
     }
 
     Ok(())
+}
+
+fn has_hydrogen(kind: &AtomKind) -> usize {
+    match kind {
+        AtomKind::Bracket { hcount: Some(hcount), .. } =>
+            if hcount.is_zero() { 0 } else { 1 },
+        _ => 0
+    }
+}
+
+// Swaps the configurations written @ and @@.
+fn flip_configuration(kind: &mut AtomKind) {
+    if let AtomKind::Bracket { configuration, .. } = kind {
+        let flipped = match configuration {
+            Some(Configuration::TH1) => Configuration::TH2,
+            Some(Configuration::TH2) => Configuration::TH1,
+            Some(Configuration::AL1) => Configuration::AL2,
+            Some(Configuration::AL2) => Configuration::AL1,
+            _ => return
+        };
+
+        configuration.replace(flipped);
+    }
 }
 
 #[cfg(test)]
